@@ -615,9 +615,22 @@ func (x *exec) step(st *State, fr *Frame, b *ssa.BasicBlock, ins ssa.Instruction
 		st.regs[ins] = out
 		return false
 	case *ssa.Range:
-		// iteration over a map or a string is abstracted: Next yields an arbitrary element (no order, no guarantee
-		// that every element is visited exactly once); the loop is cut like any other
+		// iteration over a map or a string is abstracted: Next yields an arbitrary element in no particular order; the loop
+		// is cut like any other. For a map, a ghost set of visited keys says that no key is produced twice and that, when
+		// the iteration ends, every key that was in the map at the start and still is has been produced (Go's guarantee
+		// for maps that are modified during the iteration is exactly this).
 		st.regs[ins] = x.val(st, fr, ins.X)
+		if mt, ok := types.Unalias(ins.X.Type()).Underlying().(*types.Map); ok {
+			hk, ks, _, _ := x.mapKeys(mt)
+			coll := st.regs[ins].one()
+			if st.ghostLocals == nil {
+				st.ghostLocals = map[string]Value{}
+			}
+			id := x.rangeID(ins)
+			vs := smt.ArrayOf(ks, smt.Bool)
+			st.ghostLocals["$visited#"+id] = Value{L: []smt.Term{smt.Term{S: fmt.Sprintf("((as const %s) false)", vs), Sort: vs}}}
+			st.ghostLocals["$rangehas#"+id] = Value{L: []smt.Term{e.ctx.Name("has0", smt.Select(e.heapArr(st, hk, smt.Ref, smt.ArrayOf(ks, smt.Bool)), coll))}}
+		}
 		return false
 	case *ssa.Next:
 		it := ins.Iter.(*ssa.Range)
@@ -645,6 +658,19 @@ func (x *exec) step(st *State, fr *Frame, b *ssa.BasicBlock, ins ssa.Instruction
 			k := e.leavesOf(kv)[0]
 			has := smt.Select(smt.Select(e.heapArr(st, hk, smt.Ref, smt.ArrayOf(ks, smt.Bool)), coll.one()), k)
 			st.assume(smt.Implies(ok, smt.And(smt.Not(smt.Eq(coll.one(), e.null())), has)))
+			id := x.rangeID(it)
+			if vis, have := st.ghostLocals["$visited#"+id]; have {
+				v := vis.L[0]
+				st.assume(smt.Implies(ok, smt.Not(smt.Select(v, k))))
+				nv := e.ctx.Name("visited", smt.Ite(ok, smt.Store(v, k, smt.True), v))
+				st.ghostLocals["$visited#"+id] = Value{L: []smt.Term{nv}}
+				if has0, have0 := st.ghostLocals["$rangehas#"+id]; have0 {
+					hasNow := e.ctx.Name("hasnow", smt.Select(e.heapArr(st, hk, smt.Ref, smt.ArrayOf(ks, smt.Bool)), coll.one()))
+					q := fmt.Sprintf("(forall ((k!rv %s)) (! (=> (and (select %s k!rv) (select %s k!rv)) (select %s k!rv)) :pattern ((select %s k!rv)) :pattern ((select %s k!rv))))",
+						ks, has0.L[0].S, hasNow.S, nv.S, nv.S, hasNow.S)
+					st.assume(smt.Implies(smt.Not(ok), smt.Term{S: q, Sort: smt.Bool}))
+				}
+			}
 			vv = Value{T: vt}
 			for _, l := range vls {
 				arr := e.heapArr(st, vp+l.Path, smt.Ref, smt.ArrayOf(ks, l.Sort))
@@ -657,6 +683,22 @@ func (x *exec) step(st *State, fr *Frame, b *ssa.BasicBlock, ins ssa.Instruction
 	}
 	unsupported("instruction %T", ins)
 	return true
+}
+
+// rangeID names a range instruction (position in its function) for the ghost state of map iterations.
+func (x *exec) rangeID(r *ssa.Range) string {
+	n := 0
+	for _, b := range r.Parent().Blocks {
+		for _, i := range b.Instrs {
+			if rr, ok := i.(*ssa.Range); ok {
+				n++
+				if rr == r {
+					return fmt.Sprintf("%s#%d", r.Parent().Name(), n)
+				}
+			}
+		}
+	}
+	return "?"
 }
 
 // addrPrivate reports whether the address held by v (an Alloc or a FreeVar bound to one) is only ever used to load,
@@ -1254,6 +1296,15 @@ func (x *exec) mapLookup(st *State, fr *Frame, ins *ssa.Lookup, m Value, mt *typ
 		out.L = append(out.L, e.ctx.Name("mv", smt.Ite(has, smt.Select(smt.Select(arr, m.one()), k), e.zeroLeaf(l.Sort))))
 	}
 	e.assumeValidUnder(st, has, out)
+	for i, l := range vls {
+		if l.Sort == smt.Ref {
+			key := vp + l.Path
+			if arr := e.heapArr(st, key, smt.Ref, smt.ArrayOf(ks, l.Sort)); e.unchangedSinceEntry(st, key, arr) {
+				// the map's values have not been written since the unit started
+				st.assume(smt.Implies(smt.And(has, smt.IntBin("<=", e.stamp(m.one()), e.curUnit.entry.clock)), smt.IntBin("<=", e.stamp(out.L[i]), e.curUnit.entry.clock)))
+			}
+		}
+	}
 	if ins.CommaOk {
 		return Value{T: ins.Type(), Elems: []Value{out, scalar(types.Typ[types.Bool], has)}}
 	}
